@@ -391,3 +391,78 @@ def edges_where(cfg, fn):
         if lab in ('true', 'false'):
             out.append((n, lab))
     return out
+
+
+# ------------------------------------------------------------------ lower bounds of an integer variable
+def var_facts(cfg, var, consts=None):
+    """Guards on `var`: list of (pass_edges, lower_bound)."""
+    consts = consts or {}
+    facts = []
+    for expr, tn in cfg.test_nodes.items():
+        if not isinstance(expr, ast.Compare) or len(expr.ops) != 1:
+            continue
+        l, r = expr.left, expr.comparators[0]
+        op = type(expr.ops[0])
+        if norm(l) == var:
+            n = try_const(r, consts)
+            if n is None:
+                n = consts.get(norm(r))
+        elif norm(r) == var:
+            n = try_const(l, consts)
+            if n is None:
+                n = consts.get(norm(l))
+            op = {ast.Lt: ast.Gt, ast.Gt: ast.Lt, ast.LtE: ast.GtE, ast.GtE: ast.LtE}.get(op, op)
+        else:
+            continue
+        if not isinstance(n, int) or isinstance(n, bool):
+            continue
+        if op is ast.Lt:
+            facts.append(([(tn, 'false')], n))
+        elif op is ast.LtE:
+            facts.append(([(tn, 'false')], n + 1))
+        elif op is ast.NotEq:
+            facts.append(([(tn, 'false')], n))
+        elif op is ast.GtE:
+            facts.append(([(tn, 'true')], n))
+        elif op is ast.Gt:
+            facts.append(([(tn, 'true')], n + 1))
+        elif op is ast.Eq:
+            facts.append(([(tn, 'true')], n))
+    return facts
+
+
+def assign_nodes(cfg, var):
+    out = []
+    for n in cfg.nodes:
+        if n.kind in ('stmt', 'for') and isinstance(n.ast, (ast.Assign, ast.AugAssign, ast.For)):
+            a = n.ast
+            tg = a.targets if isinstance(a, ast.Assign) else [a.target]
+            for t in tg:
+                for x in ast.walk(t):
+                    if norm(x) == var and isinstance(x, (ast.Name, ast.Attribute)):
+                        out.append(n)
+    return out
+
+
+def lower_bound_at(cfg, var, target, extra_guards=(), consts=None, default=None):
+    """Best lower bound of integer `var` proven on every path to `target`.  The guards whose bound is
+    >= b are taken together: target must be reachable only through one of their passing edges, and
+    after every assignment to var one of them must be passed again before target."""
+    guards = [(e, n) for e, n in list(var_facts(cfg, var, consts)) + list(extra_guards) if isinstance(n, int)]
+    assigns = assign_nodes(cfg, var)
+    reach_all = cfg.reachable()
+    best = default
+    for b in sorted(set(n for e, n in guards)):
+        edges = [x for e, n in guards if n >= b for x in e]
+        if target in cfg.reachable(cfg.entry, avoid_edges=edges):
+            continue
+        okk = True
+        for a in assigns:
+            if a is target or a not in reach_all:
+                continue
+            if target in cfg.reachable(a, avoid_edges=edges):
+                okk = False
+                break
+        if okk and (best is None or b > best):
+            best = b
+    return best
